@@ -326,6 +326,7 @@ class IndicationMonitor(Monitor):
         self.strict = strict_order
         self.blind = False
         self.finished_tids_b = set()
+        self.done_tids = set()
         self.src_cancelled = False
         self.oid = msgs_expect_oid
         self.msgs = msgs
@@ -362,6 +363,19 @@ class IndicationMonitor(Monitor):
                 w.violate("C15.tid", f"{rec.ent}.{rec.hk} {i[0]}", f"{i[1]} vs {want_tid}")
             elif rec.inb is not None and i[0] in ("metadata_recv", "file_segment_recv", "eof_recv") and i[1] != tid_of(rec.inb):
                 w.violate("C15.tid", f"{rec.ent}.{rec.hk} {i[0]}", f"{i[1]} vs pdu {tid_of(rec.inb)}")
+        # --- a transaction that ends (handler busy before the call, idle after it) without having been abandoned by a
+        # fault handler or reset by the user is completed: Transaction-Finished is the indication of that event
+        for i in rec.inds:
+            if i[0] == "finished":
+                self.done_tids.add((rec.ent, rec.hk, i[1]))
+        if (
+            rec.op in ("sm", "cancel") and rec.pre.state == "BUSY" and rec.post.state == "IDLE" and rec.pre.tid is not None
+            and (rec.exc is None or rec.exc.is_lib) and not any(f[0] == "abandon" for f in rec.faults)
+        ):
+            w.probe(f"C15.completed:{rec.ent}.{rec.hk}")
+            if bits & 8 and (rec.ent, rec.hk, rec.pre.tid) not in self.done_tids:
+                w.violate("C15.missing", f"{rec.ent}.{rec.hk} finished: transaction ended without Transaction-Finished indication "
+                          f"(op={rec.op} in={rec.inb_kind} step={rec.pre.step} mode={c.mode.name[:5]} closure={c.closure})", "")
         if self.blind:
             return
         if rec.hk == "src":
